@@ -34,27 +34,27 @@ var histAssumptions = []string{
 func init() {
 	add(&Prop{ID: "C01", Level: "exploration", Shards: 16, RaceShards: 16, RaceQuick: true,
 		Technique:   "runtime monitoring: reference-client/reference-service convergence oracle at exact quiescence over generated histories with schedule perturbation; Go race detector attributed to the snapshot/version mechanism",
-		Rule:        "generated histories (1-4 connections of mixed protocol versions, 3-8 resources with references/cycles/soft refs/data values, seq and burst modes, answers in random/oldest/newest order incl. errors and timeouts, seeded perturbation); a history is non-trivial when at least one event frame was delivered and at least one (connection, resource) pair was compared with the service state; distinct = distinct interleaving signature (order of boundary events + frames + hook counter vector); plus the sharedcoll family (collections shared by several connections, remove-heavy, burst: load-time snapshots must stay what they were), the query-resource cases of C13 that end in a convergence comparison (incl. an alias joining after events), and the directed regression scenarios",
+		Rule:        "generated histories (1-4 connections of mixed protocol versions, 3-8 resources with references/cycles/soft refs/data values, seq and burst modes, answers in random/oldest/newest order incl. errors and timeouts, seeded perturbation); a history is non-trivial when at least one event frame was delivered and at least one (connection, resource) pair was compared with the service state; distinct = distinct interleaving signature (order of boundary events + frames + hook counter vector); plus the sharedcoll family (collections shared by several connections, remove-heavy, burst: load-time snapshots must stay what they were), the query-resource cases of C13 that end in a convergence comparison (incl. an alias joining after events), and the directed regression scenarios; cross runs: a tenth of the budget in each of the other history families (general, sharedcoll, refgraph, requests, accounting, eventdense, lifecycle, isolation, disconnects, gating)",
 		Assumptions: histAssumptions, DesignRef: "DESIGN.md §4 C01",
 		Required:  []string{"sub.versionDiscard", "sub.queued"},
 		LevelText: "exploration: the real gateway is driven through thousands of generated, perturbed histories and at every quiescent point each client's protocol-derived copy of every retained resource is compared with the state the reference service announced; the race detector watches the snapshot/version hand-over. Decides the executions produced, not all schedules.",
 		LevelNote: "trusted base: SimBus fidelity, RefClient's reading of the client protocol, the quiescence protocol, the Go race detector"})
 	add(&Prop{ID: "C02", Level: "exploration", Shards: 16, RaceShards: 0,
 		Technique:   "runtime monitoring: protocol-following reference client checks every frame for dangling references and stray/inapplicable events over reference-graph histories",
-		Rule:        "generated histories biased to subscribe/unsubscribe and reference-changing events over small resource sets with dense reference graphs (shared children, cycles, self references, error children); non-trivial when event frames were delivered and resources compared; distinct by interleaving signature; at every quiescent point the reference counters of every subscription of every connection (indirect, indirectsent from the hook snapshot) are compared with the reference graph of that connection, and a subscription in state sent must have a direct subscription or a sent parent; directed regression scenarios",
+		Rule:        "generated histories biased to subscribe/unsubscribe and reference-changing events over small resource sets with dense reference graphs (shared children, cycles, self references, error children); non-trivial when event frames were delivered and resources compared; distinct by interleaving signature; at every quiescent point the reference counters of every subscription of every connection (indirect, indirectsent from the hook snapshot) are compared with the reference graph of that connection, and a subscription in state sent must have a direct subscription or a sent parent; directed regression scenarios; cross runs: a tenth of the budget in each of the other history families (general, sharedcoll, refgraph, requests, accounting, eventdense, lifecycle, isolation, disconnects, gating)",
 		Assumptions: histAssumptions, DesignRef: "DESIGN.md §4 C02",
 		Required:  []string{"gc.delete"},
 		LevelText: "exploration: every frame of every generated history is applied by the reference client, which reports a reference without data, an event for a resource it does not hold, a change on a collection / add,remove on a model and out-of-range indexes at the frame where it happens",
 		LevelNote: "trusted base: RefClient retention rule (reachability), SimBus fidelity"})
 	add(&Prop{ID: "C07", Level: "exploration", Shards: 16,
 		Technique:   "runtime monitoring: pending-request table of the reference client checked at exact full quiescence (zero/duplicate/unknown-id responses), overlapping request mixes with adversarial answer orders",
-		Rule:        "burst-mode histories with several outstanding requests per connection (subscribe/get/call/auth/new with resource responses, unsubscribe) and every answer outcome (result, RES error, timeout, no responders) in random/oldest/newest order; non-trivial when event frames were delivered and resources compared; distinct by interleaving signature",
+		Rule:        "burst-mode histories with several outstanding requests per connection (subscribe/get/call/auth/new with resource responses, unsubscribe) and every answer outcome (result, RES error, timeout, no responders) in random/oldest/newest order; non-trivial when event frames were delivered and resources compared; distinct by interleaving signature; cross runs: a tenth of the budget in each of the other history families (general, sharedcoll, refgraph, requests, accounting, eventdense, lifecycle, isolation, disconnects, gating)",
 		Assumptions: histAssumptions, DesignRef: "DESIGN.md §4 C07",
 		LevelText: "exploration: at full quiescence (nothing outstanding, all queues idle, fence answered) every request id must have exactly one response; 'zero responses' is definite because quiescence is exact",
 		LevelNote: "trusted base: exact quiescence protocol, SimBus"})
 	add(&Prop{ID: "C08", Level: "exploration", Shards: 16,
 		Technique:   "runtime monitoring: counter model of direct subscriptions vs. unsubscribe outcomes and vs. hooked per-connection state at quiescent points",
-		Rule:        "seq-mode histories dominated by subscribe/unsubscribe(count)/get/call-with-resource on few resources with failing gets; every unsubscribe outcome is compared with the counter model and the gateway's per-connection direct counts (hook) with the protocol accounting; non-trivial when event frames were delivered and resources compared; distinct by interleaving signature; plus the limit family (255/256 direct subscriptions on one resource, then further subscribe/get/resource-response requests, unsubscribe above the granted count, release)",
+		Rule:        "seq-mode histories dominated by subscribe/unsubscribe(count)/get/call-with-resource on few resources with failing gets; every unsubscribe outcome is compared with the counter model and the gateway's per-connection direct counts (hook) with the protocol accounting; non-trivial when event frames were delivered and resources compared; distinct by interleaving signature; plus the limit family (255/256 direct subscriptions on one resource, then further subscribe/get/resource-response requests, unsubscribe above the granted count, release); cross runs: a tenth of the budget in each of the other history families (general, sharedcoll, refgraph, requests, accounting, eventdense, lifecycle, isolation, disconnects, gating)",
 		Assumptions: histAssumptions, DesignRef: "DESIGN.md §4 C08",
 		LevelText: "exploration: predictions of the counter model are asserted for every unsubscribe issued without an overlapping request on the same resource; the hooked direct counts and leftover subscriptions are checked at every quiescent point",
 		LevelNote: "trusted base: VerifConns hook snapshot taken on the connection's own worker, RefClient accounting"})
@@ -70,7 +70,7 @@ func init() {
 		LevelNote:   "trusted base: reference matcher, event replay code in the harness, hook wrappers"})
 	add(&Prop{ID: "C05", Level: "exploration", Shards: 16,
 		Technique:   "runtime monitoring: differential oracle over enumerated call lists x methods against the exported Access.CanCall, plus boundary-log checker of call/auth/access requests in generated histories",
-		Rule:        "layer 1: every call list over {a,b,',','*'} up to the stated length x 9 methods (exhaustive), reference = '*' or exact comma-separated entry; non-trivial = the method occurs inside the list string without being equal to it; layer 2: histories with call/auth/new over WebSocket and HTTP with token changes; tokenrace cases (token events while the access request of a call/new is outstanding; admissible tokens judged at partial quiescent points)",
+		Rule:        "layer 1: every call list over {a,b,',','*'} up to the stated length x 9 methods (exhaustive), reference = '*' or exact comma-separated entry; non-trivial = the method occurs inside the list string without being equal to it; layer 2: histories with call/auth/new over WebSocket and HTTP with token changes; tokenrace cases (token events while the access request of a call/new is outstanding; admissible tokens judged at partial quiescent points); cross runs: a tenth of the budget in each of the other history families (general, sharedcoll, refgraph, requests, accounting, eventdense, lifecycle, isolation, disconnects, gating)",
 		Assumptions: []string{"method names never contain ',' or '*' (enforced by request validation, C14)"},
 		DesignRef:   "DESIGN.md §4 C05",
 		LevelText:   "exploration with exhaustive enumeration of the stated call-list space, plus monitored histories for gating and token currency",
@@ -87,27 +87,27 @@ func init() {
 func init() {
 	add(&Prop{ID: "C03", Level: "exploration", Shards: 16, RaceShards: 16,
 		Technique:   "runtime monitoring: offline checker over recorded histories - per (connection, resource) the delivered event frames must be a contiguous run / suffix of the reference service's numbered event stream; race detector attributed to the event queue mechanism",
-		Rule:        "event-dense histories (>=30% custom events, which no state assertion can see) over few resources and 1-4 connections with references loading, reaccess pending and heavy perturbation; per holding interval the delivered events are aligned with the stream (identity by sequence number / stamp / index+value); non-trivial when event frames were delivered and resources compared; distinct by interleaving signature",
+		Rule:        "event-dense histories (>=30% custom events, which no state assertion can see) over few resources and 1-4 connections with references loading, reaccess pending and heavy perturbation; per holding interval the delivered events are aligned with the stream (identity by sequence number / stamp / index+value); non-trivial when event frames were delivered and resources compared; distinct by interleaving signature; cross runs: a tenth of the budget in each of the other history families (general, sharedcoll, refgraph, requests, accounting, eventdense, lifecycle, isolation, disconnects, gating)",
 		Assumptions: append([]string{"events of a resource are identified by the world's per-resource sequence number (custom), state stamp (model change) or index and value (collection), unique by construction", "histories containing system resets are exempt from the alignment (derived events supersede stream events, as the property allows)"}, histAssumptions...),
 		DesignRef:   "DESIGN.md §4 C03", Required: []string{"sub.queued", "sub.requeue"},
 		LevelText: "exploration: order, duplicates, gaps, events below the snapshot stamp and missing tails are decided for every holding interval of every generated history",
 		LevelNote: "trusted base: world event numbering, happens-before by the single logical clock, RefClient holding intervals"})
 	add(&Prop{ID: "C09", Level: "exploration", Shards: 16, RaceShards: 16,
 		Technique:   "runtime monitoring: boundary-log checker (get only under a live event subscription), structural invariants of hooked cache state at quiescent points, end-state emptiness incl. /metrics gauges after the logical eviction wait; race detector attributed to count/eviction code",
-		Rule:        "lifecycle histories: subscribe/unsubscribe/disconnect from 1-6 connections with get errors, delete events, calls in flight, eviction delays 0/1/5 ms and perturbation at the eviction callback; count == subscribers at every quiescent point, no entry/subscription/gauge left at the end; non-trivial when event frames were delivered and resources compared; distinct by interleaving signature; plus the longname family (resource names around the length at which event.<name> no longer fits the control line)",
+		Rule:        "lifecycle histories: subscribe/unsubscribe/disconnect from 1-6 connections with get errors, delete events, calls in flight, eviction delays 0/1/5 ms and perturbation at the eviction callback; count == subscribers at every quiescent point, no entry/subscription/gauge left at the end; non-trivial when event frames were delivered and resources compared; distinct by interleaving signature; plus the longname family (resource names around the length at which event.<name> no longer fits the control line); cross runs: a tenth of the budget in each of the other history families (general, sharedcoll, refgraph, requests, accounting, eventdense, lifecycle, isolation, disconnects, gating)",
 		Assumptions: histAssumptions, DesignRef: "DESIGN.md §4 C09", Required: []string{"cache.evicted", "cache.evictAbort"},
 		LevelText: "exploration: the cache's bookkeeping is compared with the connections' subscriptions at every quiescent point and must be empty at the end of every history",
 		LevelNote: "trusted base: VerifSnapshot/VerifConns hooks, eviction accounting hook, SimBus subscription log"})
 	add(&Prop{ID: "C10", Level: "exploration", Shards: 16,
 		Technique:   "runtime monitoring: boundary-log checker of cid/token in every service request and substring scan of every client frame for any connection id, over multi-connection histories with {cid}-tagged resources and token events",
-		Rule:        "histories with 2-6 connections, {cid}-tagged resource ids, unique per-connection tokens set by token events; every access/call/auth payload must carry the requester's cid and an admissible token of that connection, no subject may name another connection's id or the raw tag, no frame may contain any cid; non-trivial when event frames were delivered and resources compared; distinct by interleaving signature",
+		Rule:        "histories with 2-6 connections, {cid}-tagged resource ids, unique per-connection tokens set by token events; every access/call/auth payload must carry the requester's cid and an admissible token of that connection, no subject may name another connection's id or the raw tag, no frame may contain any cid; non-trivial when event frames were delivered and resources compared; distinct by interleaving signature; cross runs: a tenth of the budget in each of the other history families (general, sharedcoll, refgraph, requests, accounting, eventdense, lifecycle, isolation, disconnects, gating)",
 		Assumptions: append([]string{"world payloads never contain connection ids, so any occurrence in a frame is a leak"}, histAssumptions...),
 		DesignRef:   "DESIGN.md §4 C10",
 		LevelText:   "exploration: every request and frame of every generated multi-connection history is scanned",
 		LevelNote:   "trusted base: cid learned from the conn.<cid> subscription at connect time"})
 	add(&Prop{ID: "C11", Level: "fault_enumeration", Shards: 16, RaceShards: 16,
 		Technique:   "runtime monitoring with fault injection: disconnects injected at random and at every step of generated histories with requests outstanding; hooked connection/cache state and the boundary log checked at the quiescent point after each disconnect",
-		Rule:        "burst histories with 2-5 connections where connections are torn down with requests unanswered and late answers released afterwards, plus a sweep injecting the disconnect at every step index of base histories; after the disconnect: connection gone, conn.<cid> unsubscribed, cache uses released (count == subscribers), no later request carrying the cid; non-trivial when event frames were delivered and resources compared; distinct by interleaving signature; plus the HTTP family (request aborted by its client, or an access re-check trigger arriving, after every number of answered service requests x late-answer order x header auth with/without token id: temporary connection, conn subscription, token-reset fan-out, cache uses all released) and the bus-level monitor 'request for a connection no longer registered'",
+		Rule:        "burst histories with 2-5 connections where connections are torn down with requests unanswered and late answers released afterwards, plus a sweep injecting the disconnect at every step index of base histories; after the disconnect: connection gone, conn.<cid> unsubscribed, cache uses released (count == subscribers), no later request carrying the cid; non-trivial when event frames were delivered and resources compared; distinct by interleaving signature; plus the HTTP family (request aborted by its client, or an access re-check trigger arriving, after every number of answered service requests x late-answer order x header auth with/without token id: temporary connection, conn subscription, token-reset fan-out, cache uses all released) and the bus-level monitor 'request for a connection no longer registered'; cross runs: a tenth of the budget in each of the other history families (general, sharedcoll, refgraph, requests, accounting, eventdense, lifecycle, isolation, disconnects, gating)",
 		Assumptions: histAssumptions, DesignRef: "DESIGN.md §4 C11", Required: []string{"sub.loadedAfterClose"},
 		LevelText: "fault enumeration over disconnect positions: every step index of the base histories is a disconnect point; the cleanup obligations are checked at the exact quiescent point following it",
 		LevelNote: "trusted base: onWSClose callback marks completion of the gateway's dispose; hooks"})
@@ -136,7 +136,7 @@ func init() {
 func init() {
 	add(&Prop{ID: "C04", Level: "fault_enumeration", Shards: 16,
 		Technique:   "runtime monitoring with fault enumeration: every request kind x every access outcome x answer order x token history x concurrent request, with a frame/body scanner for resource data, boundary checks of the access payload and hooked subscription state",
-		Rule:        "complete enumeration of {subscribe, get, new, call and auth with resource response, HTTP GET} x {grant, get:false, empty result, missing result, RES error, accessDenied error, timeout, no responders, invalid JSON} x {access answered first, gets answered first} x {no token, token set} x {single, second concurrent request on the rid} x {latest, 1.1.1 client}; the resource carries a marker string that must not appear in any frame/body without a grant and must appear with one; on denial the error / errors entry, hook direct count 0 and a failing follow-up unsubscribe are required; every case is non-trivial and distinct by construction",
+		Rule:        "complete enumeration of {subscribe, get, new, call and auth with resource response, HTTP GET} x {grant, get:false, empty result, missing result, RES error, accessDenied error, timeout, no responders, invalid JSON} x {access answered first, gets answered first} x {no token, token set} x {single, second concurrent request on the rid} x {latest, 1.1.1 client}; the resource carries a marker string that must not appear in any frame/body without a grant and must appear with one; on denial the error / errors entry, hook direct count 0 and a failing follow-up unsubscribe are required; every case is non-trivial and distinct by construction; cross runs: a tenth of the budget in each of the other history families (general, sharedcoll, refgraph, requests, accounting, eventdense, lifecycle, isolation, disconnects, gating)",
 		Assumptions: []string{"indirect resources are covered by the root's grant (as the property states)", "below protocol 1.2.0 call/auth resource responses are a bare {rid} without subscription, so nothing is denied there"},
 		DesignRef:   "DESIGN.md §4 C04",
 		LevelText:   "fault enumeration: the stated product of request kinds and access outcomes is executed completely against the real gateway",
